@@ -269,6 +269,23 @@ def _run_norm(spec, idx, ctx):
     out = norm(use)
     ctx.check(np.array_equal(keep, use, equal_nan=True), "input_mutated", "normalisation modified its input array", dtype=str(use.dtype), interval=spec["interval"], stretch=spec["stretch"], mode=mode)
     _judge(ctx, spec, use, norm, out, "data")
+    if use.dtype.kind == "f" and idx % 4 == 1 and use.size >= 6:
+        # the same data handed over as a numpy masked array (dead-pixel mask, matplotlib's own calling convention): entries masked
+        # by the caller may stay masked, but a NaN outside that mask must still come back masked and finite unmasked pixels judged as usual
+        m_in = rng.random(use.shape) < 0.25
+        if not m_in.any():
+            m_in.flat[0] = True
+        keepfin = np.flatnonzero(np.isfinite(use).ravel() & ~m_in.ravel())
+        if len(np.unique(use.ravel()[keepfin])) >= 2:
+            mo = norm(np.ma.MaskedArray(use.copy(), mask=m_in))
+            mm = np.ma.getmaskarray(mo)
+            nanpos = np.isnan(use) & ~m_in
+            cm = {"dtype": str(use.dtype), "interval": spec["interval"], "stretch": spec["stretch"], "mode": mode}
+            ctx.check(bool(mm[nanpos].all()), "nan_unmasked", "masked-array input: a NaN outside the caller's mask came back unmasked", **cm)
+            okm = np.isfinite(use) & ~m_in & ~mm
+            vv = np.ma.getdata(mo)[okm].astype(np.float64)
+            if vv.size:
+                ctx.close(max(0.0, float(vv.max()) - 1.0, float(-vv.min())), _tol(use.dtype), "out_of_range", lambda: "masked-array input: outputs in [%r,%r]" % (float(vv.min()), float(vv.max())), **cm)
     # limits the caller asked for are the interval's limits: data at or below a requested vmin -> 0, at or above a requested vmax -> 1
     if mode != "preset" and kw.get("interval_type") == "manual" and (kw.get("vmin") is not None or kw.get("vmax") is not None):
         rq0, rq1 = kw.get("vmin"), kw.get("vmax")
